@@ -559,6 +559,7 @@ def peel_cond(c):
 
 
 @rule("C15", "C15.b.reader-faults-become-diagnostics", floor=3)
+@rule("C16", "C16.g.reader-faults-become-diagnostics", floor=3)
 def c15b(F, R):
     """every FileReaderError maps to a ParseError that carries the directive's path token, and a failed include is reported and parsing continues"""
     tp = F.method(FRERR, "to_parse_error")
@@ -594,6 +595,27 @@ def c15b(F, R):
         R.ok("include-error-arm", detail="Err arm of the include import pushes to_parse_error(path) and keeps parsing")
     else:
         R.bad("include-error-arm", "a failing include is not reported on the directive, or stops the parse", f["sp"])
+    # the file named on the command line: a reader fault is reported too (the parse may end there, but not silently)
+    tailt = peel(f["hir"]["value"].get("expr") or {})
+    errs = ekey(tailt["elems"][1]) if tailt.get("k") == "Tup" and len(tailt["elems"]) == 2 else "?"
+    base_sites = 0
+    for mt in walk(f["hir"]["value"], pats=False):
+        err_bodies = None
+        if mt.get("k") == "Match" and mt.get("src") in (None, "Normal") and mentions_call(mt["scrut"], "import_file") and not any(a.get("k") == "Call" and short(callee_of(a) or "") == "Some" for a in walk(mt["scrut"], pats=False)):
+            err_bodies = [a["body"] for a in mt["arms"] if any(k_ == "path" and (v or "").endswith("Result::Err") for k_, v in pat_variants(a["pat"]))]
+        elif mt.get("k") == "Let" and mt.get("els") is not None and mt.get("init") is not None and mentions_call(mt["init"], "import_file") and not any(a.get("k") == "Call" and short(callee_of(a) or "") == "Some" for a in walk(mt["init"], pats=False)):
+            err_bodies = [mt["els"]]
+        if err_bodies is None:
+            continue
+        base_sites += 1
+        good = bool(err_bodies) and all(errs in {ekey(n["recv"]) for n in walk(b_, pats=False) if n.get("k") == "MethodCall" and n["name"] == "push"} for b_ in err_bodies)
+        # a let-else cannot see the error value: it can only report if it was kept before
+        if good:
+            R.ok(f"base-error-arm|{base_sites}", detail="a reader fault on the file being linted is pushed to the parse errors", where=loc(mt))
+        else:
+            R.bad("base-error-arm", "the file to lint cannot be read and nothing is pushed to the parse errors: the run ends with an empty result - no diagnostics, no explanation", loc(mt))
+    if base_sites == 0:
+        R.bad("base-error-arm|shape", "UNEXTRACTABLE: no `import_file(base, None)` site with an error branch found in parse_from_file", f["sp"])
 
 
 def refuses_includes(f, parent_p):
@@ -2321,6 +2343,69 @@ def c07o(F, R):
             R.bad(key, f"the loop that discards a macro body can be left before its closing directive: {probs[0][1]} - after `.macro push %r` the `%` is not a token, the skip stops, and the body of the macro is linted as if it were code", loc(probs[0][0]))
         else:
             R.ok(key, detail="left only at the closing directive or at the end of the input", where=loc(lp))
+
+@rule("C07", "C07.q.the-last-line-ends-even-without-a-newline", floor=2)
+def c07q(F, R):
+    """a file whose last line has no line break is read as if it had one: at the end of the input, in the middle of a statement, `AnnotatedLexer::get_any` hands out one synthetic newline, remembered in a flag so that it is handed out once. The flag starts false wherever an AnnotatedLexer is built and only that arm sets it: a lexer born with the flag already set never ends the last statement, and an incomplete last line (`jal` at the end of the file) vanishes without a parse error"""
+    cands = [q for q in F.fns if short(q) == "get_any" and "AnnotatedLexer" in q and "hir" in F.fns[q]]
+    if not cands:
+        raise Anchor("AnnotatedLexer::get_any not found")
+    g = F.fn(cands[0])
+    body = g["hir"]["value"]
+    flag = None
+    for m in walk(body, pats=False):
+        if m.get("k") != "Match" or m.get("src") not in (None, "Normal"):
+            continue
+        for a in m["arms"]:
+            is_none = any(k_ == "path" and (v or "").endswith("Option::None") for k_, v in pat_variants(a["pat"]))
+            if not is_none or a.get("guard") is None:
+                continue
+            negs = [u for u in walk(a["guard"], pats=False) if u.get("k") == "Unary" and u["op"] == "Not" and peel(u["a"]).get("k") == "Field" and ekey(peel(u["a"])["e"]).lstrip("&*") == "self"]
+            sets = [x for x in walk(a["body"], pats=False) if x.get("k") == "Assign" and peel(x["l"]).get("k") == "Field" and ekey(peel(x["l"])["e"]).lstrip("&*") == "self" and lit_value(x["r"]) is True]
+            for u in negs:
+                fld = peel(u["a"])["name"]
+                if any(peel(x["l"])["name"] == fld for x in sets):
+                    gives_newline = any(y.get("k") == "Path" and (y.get("res") or "").endswith("TokenType::Newline") for y in walk(a["body"], pats=False))
+                    flag = (fld, a, gives_newline)
+    if flag is None:
+        R.bad("shape", "UNEXTRACTABLE: no `None if .. && !self.<flag> => { self.<flag> = true; .. }` arm found in AnnotatedLexer::get_any: the end of the input in the middle of a statement no longer ends the statement", g["sp"])
+        return
+    fld, arm, gives = flag
+    if gives:
+        R.ok("arm", detail=f"at the end of the input `{fld}` is set and a Newline token is handed out", where=loc(arm))
+    else:
+        R.bad("arm", "the end-of-input arm of get_any does not hand out a Newline token", loc(arm))
+    # every construction starts with the flag cleared
+    n = 0
+    ALS = None
+    for q, f in sorted(F.fns.items()):
+        if "hir" not in f:
+            continue
+        for st in walk(f["hir"]["value"], pats=False):
+            if st.get("k") == "Struct" and (st.get("res") or st.get("path") or "").split("<")[0].endswith("AnnotatedLexer"):
+                fs = {x["name"]: x["e"] for x in st["fields"]}
+                if fld not in fs:
+                    continue
+                n += 1
+                key = f"init|{short(q.split('::{closure')[0])}|{n}"
+                v = lit_value(fs[fld])
+                if v is False:
+                    R.ok(key, detail=f"`{fld}: false` at construction", where=loc(st))
+                elif v is True:
+                    R.bad(f"init|{short(q.split('::{closure')[0])}", f"an AnnotatedLexer is built with `{fld}` already set: the newline that ends an unterminated last line is never handed out, and a last line that is not a complete statement disappears without a parse error", loc(st))
+                else:
+                    R.bad(key + "|unextractable", f"UNEXTRACTABLE: `{fld}` is initialised with an expression", loc(st))
+    if n == 0:
+        R.bad("init|shape", "UNEXTRACTABLE: no construction of AnnotatedLexer found", g["sp"])
+    # nobody else sets it
+    for q, f in sorted(F.fns.items()):
+        if "hir" not in f:
+            continue
+        for x in walk(f["hir"]["value"], pats=False):
+            if x.get("k") == "Assign" and peel(x["l"]).get("k") == "Field" and peel(x["l"])["name"] == fld and "AnnotatedLexer" in ((peel(x["l"])["e"].get("ty") or "") + q):
+                inside = any(y is x for y in walk(arm["body"], pats=False))
+                if not inside:
+                    R.bad(f"other-writer|{short(q)}", f"`{fld}` is also written outside the end-of-input arm", loc(x))
 
 
 @rule("C09", "C09.g.range-ends-are-positions-of-characters", floor=1)
